@@ -43,6 +43,23 @@ def scope(model, family: str, schema_id: str, size: int, **over) -> dict:
             "types": ["doc", "paragraph", "blockquote", "text"],
             "texts": ["a", "bcd"],
         }
+    elif family == "pair":  # isolation pairs (schemas.pair_specs): everything the schema has, names taken from the model
+        ms = list(model.mark_names)
+        from ..ref import marks as rmk
+
+        msets = []
+        for names in ([], ms[:1], ms[1:2], ms[:2], ms[2:3], [ms[0], ms[2]]):
+            cs = rmk.canon_set(model, [mk(model, n, None) for n in names])
+            if rmk.is_canonical(model, cs) and cs not in msets:
+                msets.append(cs)
+        s = {"types": list(model.type_names), "texts": ["a"], "marksets": msets, "max_children": 3}
+    elif family == "chips":
+        s = {
+            "types": ["doc", "paragraph", "text", "chip", "span", "hard_break"],
+            "texts": ["a", "bc"],
+            "marksets": _ms(model, [], [EM]),
+            "max_children": 3,
+        }
     elif family == "inline":
         s = {
             "types": ["doc", "paragraph", "text", "hard_break", "image"],
@@ -150,6 +167,24 @@ def scope(model, family: str, schema_id: str, size: int, **over) -> dict:
                 "widget": [{"id": 7}, {"id": "w", "cfg": {"deep": [1, {"k": "v"}]}}],
             },
         }
+    elif family == "marks3":  # runs of three and more one-character text nodes with alternating marks
+        s = {
+            "types": ["doc", "paragraph", "text"],
+            "texts": ["a", "b"],
+            "marksets": _ms(model, [], [LINK]),  # LINK is the first mark gen_steps.schema_marks offers
+            "max_children": 4,
+        }
+    elif family == "attrs_sub":  # attribute values that are key-subsets / prefixes of one another
+        s = {
+            "types": ["doc", "para", "widget", "text"],
+            "texts": ["a"],
+            "marksets": _ms(model, [], [("note", {"id": 1, "tags": []})], [("note", {"id": 1, "tags": ["t", "x"]})]),
+            "attrs": {
+                "para": [{"data": {}}, {"data": {"k": 1}}, {"data": {"k": 1, "j": 2}}],
+                "widget": [{"id": 7, "cfg": []}, {"id": 7, "cfg": [1]}, {"id": 7, "cfg": [1, 2]}],
+            },
+            "max_children": 2,
+        }
     elif family == "fmarks":
         from ..ref import marks as rmk
 
@@ -194,7 +229,7 @@ def scope(model, family: str, schema_id: str, size: int, **over) -> dict:
             if rmk.is_canonical(model, ms) and ms not in msets:
                 msets.append(ms)
         s = {
-            "types": ["doc", "paragraph", "text", "chip", "span"],
+            "types": ["doc", "paragraph", "plain", "text", "chip", "span"],
             "texts": ["a"],
             "marksets": msets,
             "max_children": 2,
@@ -221,8 +256,8 @@ def scope(model, family: str, schema_id: str, size: int, **over) -> dict:
 
 def families_for(schema_id: str) -> list[str]:
     return {
-        "basic": ["blocks", "blocks2", "long", "inline", "inline_s", "astral", "links"],
-        "list": ["blocks", "blocks2", "long", "inline", "inline_s", "lists", "lists_q", "astral"],
+        "basic": ["blocks", "blocks2", "long", "marks3", "inline", "inline_s", "astral", "links"],
+        "list": ["blocks", "blocks2", "long", "marks3", "inline", "inline_s", "lists", "lists_q", "astral"],
         "strict_hb": ["strict"],
         "title": ["title"],
         "fixed": ["fixed"],
@@ -231,7 +266,11 @@ def families_for(schema_id: str) -> list[str]:
         "table": ["table"],
         "grid": ["table"],
         "hp": ["hp"],
+        "iso_li": ["lists", "lists_q"],
+        "footnote": ["blocks"],
+        "chips": ["chips"],
+        **{f"pair{k}{t}": ["pair"] for k in "PS" for t in "12"},
         "inlstrict": ["inlstrict"],
         "topmarks": ["topmarks"],
-        "attrs": ["attrs"],
+        "attrs": ["attrs", "attrs_sub"],
     }[schema_id]
